@@ -79,6 +79,11 @@ def synth(rec):
                     v = (hc % (2 * aq + 1)) - aq if aq else 0
                 out += int(v).to_bytes(sw, "little", signed=True)
         pos += ln
+    if rec.get("thr0"):
+        # threshold exactly 0 dB (a falsy value): quiet = digital silence, loud >= 6 dB
+        if aq != 0 or al < 2:
+            raise HarnessError("thr0 recordings need aq == 0 and al >= 2")
+        return bytes(out), 0.0
     return bytes(out), threshold_db(al, aq)
 
 
@@ -130,8 +135,11 @@ def recording(draw, maxwin=30, maxB=12, channels=(1, 2, 3, 4), uc_any=True, patt
         uc = None
     else:
         uc = draw(st.sampled_from([None, "any", "mix", "avg", "average"]) | st.integers(-ch, ch - 1))
-    return {"sr": sr, "sw": sw, "ch": ch, "B": B, "pat": pat, "tail": [k, tbit],
-            "al": al, "aq": aq, "salt": salt, "uc": uc}
+    out = {"sr": sr, "sw": sw, "ch": ch, "B": B, "pat": pat, "tail": [k, tbit],
+           "al": al, "aq": aq, "salt": salt, "uc": uc}
+    if draw(st.integers(0, 5)) == 0:
+        out.update(thr0=True, aq=0, al=draw(st.integers(2, 60)))
+    return out
 
 
 @st.composite
